@@ -300,3 +300,31 @@ CHECKS["C13"] = {
         rapid_job("isolation", "./verifh/c13", "TestWrapIsolationAndShape|TestWrapCancelWhileServerSends", 300, 2000, shards_t=2),
     ],
 }
+
+
+def _c14_prebuild(workdir, repo, goenv, log):
+    import os, sys
+    sys.path.insert(0, os.path.dirname(os.path.abspath(__file__)))
+    import discover
+    gen = os.path.join(workdir, "gen", "zz_servers_gen_test.go")
+    n = discover.write_server_registry(repo, gen)
+    log("discovered %d (server, service) pairs" % n)
+    if n < 10:
+        return False
+    return {os.path.join(repo, "verifh", "c14", "zz_servers_gen_test.go"): gen}
+
+
+CHECKS["C14"] = {
+    "prebuild": _c14_prebuild,
+    "rule": ("every model server / memory device discovered in pkg/trait (source scan at check time) x every Get/Update/Pull triple found in its service descriptor, driven purely from descriptors through "
+             "wrapper -> router -> wrapper -> server: rapid-generated histories of 1-12 RPCs (Update with a random value of the resource type and nil/valid/invalid update mask, Get with a read mask, "
+             "0-2 Pull streams with read mask / updates-only). Oracle: Update response == next Get; Get(mask) == projection of Get(); a new Pull starts with the current value unless updates-only; every "
+             "stream message equals one of the responses since the last delivered one, in order, and carries the Pull request's name; an update whose response differs from the stream's last value in a "
+             "non-float field (or >=1.0 in a float, >=2s in a time) must arrive while the reader keeps up; a rejected Update leaves Get unchanged. non-trivial = history with >=2 successful updates, >=1 open "
+             "stream and >=1 masked read; distinct by (server, triple, history)"),
+    "assumptions": ["keyed resources (extra scalar request fields such as an id) are listed in the evidence notes and not driven generically", "tolerances in the tree are <= 0.1 for floats and 1s for times",
+                    "real-time behaviour (tweens) is left at its zero default"],
+    "jobs": [
+        rapid_job("triples", "./verifh/c14", "TestTripleSweep", 300, 1500, shards={"quick": 4, "thorough": 16}, timeout={"quick": 400, "thorough": 2400}),
+    ],
+}
